@@ -84,7 +84,8 @@ def impl_only(crate, binname, replay_path):
     print("expected: %s" % r.get("expected"))
     print("observed: %s" % "; ".join(obs))
     exp = r.get("expected", "")
-    okay = (obs and (obs[0] == exp or (exp == "Err" and obs[0].startswith("Err "))))
+    okay = (obs and (obs[0] == exp or (exp == "Err" and obs[0].startswith("Err "))
+                     or (exp == "a value or an error" and (obs[0].startswith("Ok ") or obs[0].startswith("Err ")))))
     print("REPRODUCED" if not okay else "NOT REPRODUCED (implementation now meets the expectation)")
     return 1 if not okay else 0
 
